@@ -145,6 +145,10 @@ pub fn builder_plans(ctx: &mut Ctx, opts: &RunOpts) {
         vec![BEntry::AddRaw(k("x"), vec![0xc2, 0x01, 0x02])],
         vec![BEntry::AddRaw(k("x"), vec![0xc0]), BEntry::AddRaw(k("y"), vec![0x80])],
         vec![BEntry::AddRaw(k("x"), vec![0xc0, 0x80])],
+        vec![BEntry::AddRawNested(k("x"), 400_000)],
+        vec![BEntry::AddRawNested(k("x"), 30)],
+        vec![BEntry::Add(k("rec"), Val::Rec)],
+        vec![BEntry::Add(k("huge"), Val::B(vec![0x22; 70_000]))],
         vec![BEntry::AddRaw(k("id"), vec![0xc0])],
         vec![BEntry::AddRaw(k("ed25519"), vec![0xc0])],
         vec![BEntry::AddRaw(k("secp256k1"), vec![0xc0])],
@@ -630,8 +634,28 @@ fn builder_reuse(ctx: &mut Ctx) {
             let second = b.build(&own);
             b.tcp4(9);
             let third = b.build(&other);
-            (first, second, third)
+            // a typed, well-formed but ill-typed value under a reserved key AFTER successful builds
+            b.add_value("udp", &"hello");
+            let fourth = b.build(&own);
+            let mut b2 = Enr::<KK::K>::builder();
+            b2.add_value("x", &1u8);
+            let _ = b2.build(&own);
+            b2.add_value_rlp("tcp", bytes::Bytes::from_static(&[0x82, 0x00, 0x01]));
+            let fifth = b2.build(&own);
+            if fourth.is_ok() || fifth.is_ok() {
+                return Err(format!("build #4 ok={} build #5 ok={}", fourth.is_ok(), fifth.is_ok()));
+            }
+            Ok((first, second, third))
         });
+        let r = match r {
+            Ok(Err(msg)) => {
+                ctx.violate("C08", "ok-despite-cause", "build-reuse/ill-typed", || format!("{}: a re-used builder accepted an ill-typed reserved value: {msg}", KK::name()), || json!({"kind": "note", "what": "builder-reuse", "kt": KK::name()}));
+                ctx.violate("C05", "not-accepted-again-by-decoder", "build-reuse/ill-typed", || format!("{}: {msg}", KK::name()), || json!({"kind": "note", "what": "builder-reuse", "kt": KK::name()}));
+                return;
+            }
+            Ok(Ok(v)) => Ok(v),
+            Err(p) => Err(p),
+        };
         ctx.count("evaluations");
         ctx.count("builder-reuse");
         let replay = || json!({"kind": "note", "what": "builder-reuse", "kt": KK::name()});
